@@ -626,6 +626,7 @@ type pendingProbe struct {
 	in, out int
 	ignoreX bool
 	conv    bool // ES module input converted to a script format (cjs / iife)
+	toMod   bool // sloppy script input, output requested as an ES module (format esm): the output is strict code by request
 }
 
 func runTrees(r *core.Run, cases []treeCase, cfgs []config) {
@@ -771,7 +772,7 @@ func runTrees(r *core.Run, cases []treeCase, cfgs []config) {
 							what:    fmt.Sprintf("input %q -> output %q", s.src, o.code),
 							in:      pb.add(probeItem{Src: s.src, Kind: inKind, Names: names, Valuations: r.Pick(2, 4)}),
 							out:     pb.add(probeItem{Src: o.code, Kind: outKind, Names: names, Valuations: r.Pick(2, 4)}),
-							ignoreX: cf.Format == "iife" && c.Goal == "module", conv: converted})
+							ignoreX: cf.Format == "iife" && c.Goal == "module", conv: converted, toMod: inKind == "script" && outKind == "module"})
 					} else {
 						key["check"] = "same-tree"
 						detail["observed_sexp"] = out.NF()
@@ -801,6 +802,13 @@ func runTrees(r *core.Run, cases []treeCase, cfgs []config) {
 						// the property excludes it (whitespace alone is already ignored by squeeze, but values DERIVED from
 						// the text - a key looked up on the probe object - differ legitimately)
 						r.Inc("tree_probe_excluded_source_text_observed", 1)
+						continue
+					}
+					if q.toMod && onlyStrictModeErrorsLost(pb.res[q.out].Traces, pb.res[q.in].Traces, q.ignoreX) {
+						// a sloppy script was requested as format=esm: the output is module code, which is strict by definition;
+						// an error that only strict mode raises (assignment to an undeclared name, to a property of a primitive)
+						// and that is the ONLY difference is the consequence of the requested format, not of the transform
+						r.Inc("tree_probe_excluded_strictness_gained_by_requested_esm_format", 1)
 						continue
 					}
 					if q.conv && onlyStrictModeErrorsLost(pb.res[q.in].Traces, pb.res[q.out].Traces, q.ignoreX) {
